@@ -16,7 +16,7 @@ func init() {
 	register(&propDef{
 		ID: "C20",
 		Meta: propMeta{
-			Explanation: "Structural necessary conditions of the health property, decided on the SSA form of package server: (R20a) no select-loop can re-enter its select from the case that receives from a close-signalling channel (a closed channel is always ready, so re-entry is a busy spin) — module-wide, with the server's health loop as required instance; (R20b) the package-level health counters are written only by the initialiser and the checker and every access after the loop goroutine is started holds healthMu; (R20c) Server.Close closes the channel the loop selects on, exactly once, and exactly one loop goroutine is started; (R20d) Healthy() can return true only on a path where Disabled is false, the staleness comparison (elapsed > 3*interval) is false, and its value is (counter > 0); (R20e) the value the checker stores into the counter is the configured N exactly when no token failed, otherwise counter-1 guarded by counter>0, otherwise unchanged; a token counts as failed exactly when Ping returned an error. (R20f) every completed check refreshes healthLastPing on every path (staleness means the checker stopped, not that tokens fail); the worker's periodic check runs Ping in its own goroutine and waits in a select that includes the timeout context's Done channel, so a token whose Ping ignores its context cannot wedge the loop. (R20g) the worker token's retry loop reports failure when its attempts are exhausted (the rules of C15 R15a-c on doRetry, which Ping goes through); (R20h) every module type that wraps a token.Token and defines its own Ping returns nil only as the result of the wrapped token's Ping. (R20i) the closure Daemon.Close runs in its errgroup reaches no return without calling Server.Close, which signals the health loop and closes the Closed channel, also when http.Server.Shutdown failed.",
+			Explanation: "Structural necessary conditions of the health property, decided on the SSA form of package server: (R20a) no select-loop can re-enter its select from the case that receives from a close-signalling channel (a closed channel is always ready, so re-entry is a busy spin) — module-wide, with the server's health loop as required instance; (R20b) the package-level health counters are written only by the initialiser and the checker and every access after the loop goroutine is started holds healthMu; (R20c) Server.Close closes the channel the loop selects on, exactly once, and exactly one loop goroutine is started; (R20d) Healthy() can return true only on a path where Disabled is false, the staleness comparison (elapsed > 3*interval) is false, and its value is (counter > 0); (R20e) the value the checker stores into the counter is the configured N exactly when no token failed, otherwise counter-1 guarded by counter>0, otherwise unchanged; a token counts as failed exactly when Ping returned an error. (R20f) every completed check refreshes healthLastPing on every path (staleness means the checker stopped, not that tokens fail); the worker's periodic check runs Ping in its own goroutine and waits in a select that includes the timeout context's Done channel, so a token whose Ping ignores its context cannot wedge the loop. (R20g) the worker token's retry loop reports failure when its attempts are exhausted (the rules of C15 R15a-c on doRetry, which Ping goes through); (R20h) every module type that wraps a token.Token and defines its own Ping returns nil only as the result of the wrapped token's Ping. (R20j) every success return of startHealthCheck comes after `go healthCheckLoop()`: the last-check time keeps being refreshed also when no token is served. (R20i) the closure Daemon.Close runs in its errgroup reaches no return without calling Server.Close, which signals the health loop and closes the Closed channel, also when http.Server.Shutdown failed.",
 			NotDecided:  "the arithmetic over whole check histories and elapsed time (no execution, no model of time); that Ping itself reflects token state.",
 			Assumptions: []string{"a receive from a closed channel never blocks (Go spec)", "sync.Mutex provides mutual exclusion"},
 		},
@@ -368,6 +368,10 @@ func runC20(c *Ctx) {
 		c.Undecided("R20g", "(*WorkerToken).doRetry", "-", "function not found")
 	} else {
 		c15Retry(c, dr, "R20g", "R20g", "R20g")
+	}
+	c.Rule("R20j", "startHealthCheck starts the health loop on every path on which it succeeds", 1)
+	for _, f := range healthLoopAlwaysStarted(c.P) {
+		c.Check(f.OK, "R20j", f.Key, f.Pos, "", f.Detail)
 	}
 	c.Rule("R20i", "the daemon's shutdown step calls Server.Close, which stops the health loop, on every path", 1)
 	for _, f := range shutdownAlwaysClosesServer(c.P) {
